@@ -175,8 +175,11 @@ func main() {
 	jsonMode := flag.Bool("json", false, "flatten JSONL trace files given as arguments")
 	cpMode := flag.Bool("crashpoints", false, "crash at every step/ready event of the base schedules")
 	sleepW := flag.Float64("sleep", 0, "weight of the generator's sleeping-node events in every profile (0 = as configured)")
+	oracleOut := flag.String("oracle-out", "", "with -scenario: directory for the raftsim-style summary.json and replayable scenario files of the direct oracles")
 	scName := flag.String("scenario", "", "run the directed scenario NAME (or all) instead of generated schedules")
 	flag.Parse()
+	// follow the processReady operation order of the repository's node/raft.go (as raftsim does)
+	raftdrv.CurrentOrder = raftdrv.ExtractOrder(raftdrv.RepoPath())
 	f, err := os.Create(*out)
 	if err != nil {
 		fmt.Fprintln(os.Stderr, err)
@@ -225,7 +228,7 @@ func main() {
 	recs := 0
 	if *scName != "" {
 		dir, _ := os.MkdirTemp("", "raftabs")
-		n, problems := runScenarios(*scName, w, dir)
+		n, problems := runScenarios(*scName, w, dir, *oracleOut)
 		os.RemoveAll(dir)
 		for _, p := range problems {
 			fmt.Printf("SCENARIO-PROBLEM %s\n", p)
